@@ -25,7 +25,8 @@ EXPLANATION = (
     'per shape with symbolic quotas and every assignment vector (incl. unacceptable projects) z3 proves the returned flag equals the validity specification '
     '(with and without -pc). (c) end-to-end: real -bf runs on concrete small instances against the exhaustive specification optimum of all nine statistics and the '
     'Infeasible verdict (secondary cross-check of the composition).')
-ASSUMPTIONS = ['record invariants of a valid matching: sizes/costs/profile entries >= 0, profile sums to size, max deviation <= max lecturer upper quota, total deviation <= lecturers * max upper quota (well-formed targets)',
+ASSUMPTIONS = ['accumulator invariant for the inductive step: stored profiles are non-negative, the max-size profiles sum to the stored maximum size, the overall greedy profile sums to at most it',
+               'record invariants of a valid matching: sizes/costs/profile entries >= 0, profile sums to size, max deviation <= max lecturer upper quota, total deviation <= lecturers * max upper quota (well-formed targets)',
                'statistic helpers are checked against the specification in C11; here they are stubbed in (a) and real in (b), (c)']
 LEVEL_TEXT = ('Inductive SMT argument on the real loop body (arbitrary symbolic accumulator state and record; R bounded) + SMT equivalence of the real validity test with the '
               'specification for all quotas per shape + concrete end-to-end agreement on small instances.')
@@ -147,6 +148,21 @@ def fold_task(task, res):
                    'gen': [fi('GP') for _ in range(R)], 'gre': [fi('HP') for _ in range(R)], 'allgre': [fi('AP') for _ in range(R)],
                    'md': fi('MD'), 'sd': fi('SD')}
             e.assume(pre['size'] >= 0)
+            # invariant of reachable accumulator states (a counterexample from a state no history reaches
+            # would mean the invariant is too weak, not that the code is wrong): the stored profiles are
+            # profiles of valid matchings, the two max-size ones of matchings of the maximum size
+            for k in ('gen', 'gre', 'allgre'):
+                for x_ in pre[k]:
+                    e.assume(x_ >= 0)
+            e.assume(z3.Sum([x_.t for x_ in pre['gen']]) == pre['size'].t)
+            e.assume(z3.Sum([x_.t for x_ in pre['gre']]) == pre['size'].t)
+            e.assume(z3.Sum([x_.t for x_ in pre['allgre']]) <= pre['size'].t)
+            for k in ('cost', 'sq'):
+                for x_ in pre[k]:
+                    e.assume(x_ >= 0)
+            e.assume(pre['deg'] >= 0)
+            e.assume(pre['md'] >= 0)
+            e.assume(pre['sd'] >= pre['md'])
         else:
             e.assume(rec['valid'].t)
         mark = Mark()
